@@ -500,6 +500,44 @@ func genTopo(r *hx.Rng, mode int) {
 	}
 }
 
+// genTwin: a plan that moves BOTH replicas of one volume (the second move must be judged against the
+// place the first replica was moved to): k volumes with two replicas on servers A and B (different racks
+// resp. data centers), two empty servers C and D that share the rack / data center the replicas must not
+// share. The planner may move v: A => C, after which v: B => D has to be refused.
+func genTwin(r *hx.Rng) {
+	exec("reset", nil)
+	byDc := r.Chance(1, 3)
+	rp := 10
+	locs := [][2]int{{1, 1}, {1, 2}, {1, 3}, {1, 3}}
+	if byDc {
+		rp = 100
+		locs = [][2]int{{1, 1}, {2, 1}, {3, 1}, {3, 1 + r.Intn(2)}}
+	}
+	max := 6 + r.Intn(5)
+	for i, l := range locs {
+		exec("dn", []string{hx.I(int64(l[0])), hx.I(int64(l[1])), hx.I(int64(i + 1))})
+	}
+	for i := range locs {
+		exec("disk", []string{hx.I(int64(i + 1)), "hdd", hx.I(int64(max))})
+	}
+	k := 2 + r.Intn(5)
+	if k > max {
+		k = max
+	}
+	ro := r.Chance(1, 4)
+	for v := 1; v <= k; v++ {
+		size := uint64(10*v + r.Intn(9))
+		for _, id := range []int{1, 2} {
+			exec("vol", []string{hx.I(int64(id)), "hdd", hx.I(int64(v)), hx.U(size), hx.I(int64(rp)), hx.B(ro), "0", hx.I(int64(1000 + 10*v + id))})
+		}
+	}
+	// sometimes a single-copy filler on C so that C and D are not tied
+	if r.Bool() {
+		exec("vol", []string{"3", "hdd", hx.I(int64(k + 1)), "500", "0", hx.B(ro), "0", "2000"})
+	}
+	exec("balance", []string{"hdd", "ALL", "-", "1000"})
+}
+
 func genLoc(r *hx.Rng) string {
 	dc := 1 + r.Intn(3)
 	rk := 1 + r.Intn(3)
@@ -564,5 +602,9 @@ func main() {
 			exec("evac", []string{hx.I(int64(cur.servers[r.Intn(len(cur.servers))].id))})
 		}
 		exec("fix", nil)
+	}
+	// after the random topologies (their random stream is unchanged): plans moving both replicas of a volume
+	for i := 0; i < a.N(12); i++ {
+		genTwin(r)
 	}
 }
